@@ -41,6 +41,7 @@ type Step struct {
 	Name    string `json:"name"`              // callback name
 	Before  string `json:"before,omitempty"`  // Before(t)  ("" = not called)
 	After   string `json:"after,omitempty"`   // After(t)
+	Chain   string `json:"chain,omitempty"`   // "" = Before(..) is called first, "AB" = After(..).Before(..) (both set)
 	Builtin bool   `json:"builtin,omitempty"` // part of the default registration of the pipeline
 	Tx      bool   `json:"tx,omitempty"`      // registered with Match(enableTransaction)
 }
@@ -119,27 +120,26 @@ func runCase(in Input, emit func(Outcome)) {
 		stub := func(*gorm.DB) { log = append(log, Fire{s.Name, i}) }
 		// the call forms a user writes: p.Register / p.Before(t).Register / p.After(t).Register /
 		// p.Before(a).After(b).Register / p.Match(f).Register / p.Replace / p.Remove
-		type chain interface {
-			Register(string, func(*gorm.DB)) error
-			Replace(string, func(*gorm.DB)) error
-			Remove(string) error
+		// the registration object is built by chaining, in the order the history says:
+		// [p.Match(f)] then Before(..) / After(..) in either order
+		var calls [][2]string
+		if s.Before != "" {
+			calls = append(calls, [2]string{"before", s.Before})
+		}
+		if s.After != "" {
+			calls = append(calls, [2]string{"after", s.After})
+		}
+		if s.Chain == "AB" && len(calls) == 2 {
+			calls[0], calls[1] = calls[1], calls[0]
 		}
 		var c chain = p
 		switch {
-		case s.Tx && s.Before != "" && s.After != "":
-			c = p.Match(enableTransaction).Before(s.Before).After(s.After)
-		case s.Tx && s.Before != "":
-			c = p.Match(enableTransaction).Before(s.Before)
-		case s.Tx && s.After != "":
-			c = p.Match(enableTransaction).After(s.After)
 		case s.Tx:
-			c = p.Match(enableTransaction)
-		case s.Before != "" && s.After != "":
-			c = p.Before(s.Before).After(s.After)
-		case s.Before != "":
-			c = p.Before(s.Before)
-		case s.After != "":
-			c = p.After(s.After)
+			c = chainOn(p.Match(enableTransaction), calls)
+		case len(calls) > 0 && calls[0][0] == "before":
+			c = chainOn(p.Before(calls[0][1]), calls[1:])
+		case len(calls) > 0:
+			c = chainOn(p.After(calls[0][1]), calls[1:])
 		}
 		var e error
 		switch s.Kind {
@@ -158,6 +158,31 @@ func runCase(in Input, emit func(Outcome)) {
 			emit(Outcome{Kind: "ok", Fired: fire()})
 		}
 	}
+}
+
+// what a registration chain ends in
+type chain interface {
+	Register(string, func(*gorm.DB)) error
+	Replace(string, func(*gorm.DB)) error
+	Remove(string) error
+}
+
+// gorm's *callback (unexported): Before / After return the receiver's own type
+type chainObj[C any] interface {
+	chain
+	Before(string) C
+	After(string) C
+}
+
+func chainOn[C chainObj[C]](c C, calls [][2]string) chain {
+	for _, k := range calls {
+		if k[0] == "before" {
+			c = c.Before(k[1])
+		} else {
+			c = c.After(k[1])
+		}
+	}
+	return c
 }
 
 func workerMain() {
